@@ -42,6 +42,16 @@ def yaml_node_configs() -> List[Tuple[str, dict]]:
         out.append((f"shorthand:{spec}", {"processor": spec}))
     for proc in ("VProbe", "VGainProbe", "VTwoProbe"):
         out.append((f"slice-probe:{proc}", {"processor": f"slice:{proc}:FloatDataCollection", "context_key": "r"}))
+    # context-key-bound variants (a subclass generated per output key) and keyword-only parameters
+    for key in ("fit_coefficients", "fit.coefficients", "k", "a[0]"):
+        out.append((f"ctxkey:ModelFitting->{key}", {"processor": "ModelFittingContextProcessor",
+                                                     "parameters": {"fitting_model": "model:PolynomialFittingModel:degree=1", "context_key": key}}))
+    out.append(("ctxkey:ModelFitting(unbound)", {"processor": "ModelFittingContextProcessor", "parameters": {"fitting_model": "model:PolynomialFittingModel:degree=2"}}))
+    for proc, extra in (("VKwMul", {"parameters": {"factor": 2.0}}), ("VKwTwo", {}), ("VKwGainProbe", {"context_key": "g"}), ("slice:VKwMul:FloatDataCollection", {}),
+                        ("slice:VKwGainProbe:FloatDataCollection", {"context_key": "g"})):
+        out.append((f"kwonly:{proc}", {"processor": proc, **extra}))
+    out.append(("kwonly:sweep:VKwTwo", {"processor": "VKwTwo", "derive": {"parameter_sweep": {"parameters": {"addend": "t"}, "variables": {"t": [1.0, 2.0]},
+                                                                                             "collection": "FloatDataCollection"}}, "parameters": {"factor": 2.0}}))
     # sweeps: kinds x variable kinds x with/without defaults x node-level parameters
     var_menu = {"seq": {"values": [1.0, 2.0]}, "range": {"lo": 1.0, "hi": 2.0, "steps": 2}, "log": {"lo": 1.0, "hi": 10.0, "steps": 2, "scale": "log"},
                 "ctx": {"from_context": "r"}, "list": [1.0, 2.0, 3.0]}
@@ -178,9 +188,19 @@ def check(tier: str, seed: int) -> Result:
     viols: List[Violation] = []
     n = 0
     classes = set()
+    import gc
+
     for label, cfg in core.seeded_order(cfgs, seed):
         try:
             v = judge(label, cfg)
+            if not (isinstance(cfg, tuple) and cfg[0] == "node"):
+                # history: the first generation is dropped and collected, the same configuration is generated again and judged
+                # before anything else reads a registry
+                gc.collect()
+                v2 = judge(label, cfg)
+                v = v + [(sig + "|second-generation", "generated again after the first was collected: " + msg, case) for sig, msg, case in v2
+                         if sig not in {x[0] for x in v}]
+                n += 1
         except Exception as exc:
             viols.append(Violation("generation-fails", f"{label}: {type(exc).__name__}: {exc}", {"label": label}))
             continue
